@@ -289,6 +289,20 @@ impl Judge<'_> {
                 let g = chaingen::fuel_core_types::blockchain::transaction::TransactionExt::max_gas(&p.tx, params).unwrap_or(0);
                 g > left && g <= gas_limit && p.script.as_ref().map(|s| s.steps.iter().any(|st| st.name() == "burn_loop")).unwrap_or(false)
             });
+            // the sharpest case: the very first transaction the source offers is such a burner and the gas it
+            // really uses would push the block over the limit if it were admitted against a stale budget
+            if let Some(p0) = plan.txs.first() {
+                let g = chaingen::fuel_core_types::blockchain::transaction::TransactionExt::max_gas(&p0.tx, params).unwrap_or(0);
+                let burns = p0
+                    .script
+                    .as_ref()
+                    .filter(|s| s.steps.iter().any(|st| matches!(st, chaingen::programs::Step::Burn { iters } if *iters as u64 * 3_000 >= s.gas_limit)))
+                    .map(|s| s.gas_limit)
+                    .unwrap_or(0);
+                if g > left && g <= gas_limit && burns > 0 && l1_gas.saturating_add(burns) > gas_limit {
+                    c.report.count(&format!("c03.first_offered_tx_would_overflow_a_stale_gas_budget.{}", by(source.respects_gas())));
+                }
+            }
             if sensitive {
                 c.report.count(&format!("c03.gas_burner_fits_full_limit_but_not_remaining.{}", by(source.respects_gas())));
             }
@@ -337,8 +351,8 @@ impl Judge<'_> {
         if c.report.wants_sample() && (gas_bound || size_bound) && chance(rng, 10) {
             c.report.sample(replay());
         }
-        if count > 40 {
-            // mutation loop on huge blocks is pointless and slow
+        if count > 40 || chance(rng, 50) {
+            // mutation loop on huge blocks is pointless and slow; elsewhere every second block is enough
             return;
         }
 
@@ -436,7 +450,7 @@ impl Judge<'_> {
 pub fn run(args: &Args, report: &Report) {
     let ctx = Ctx::new(args, report);
     let shards = args.by_tier(16, 32);
-    let sessions = args.by_tier(20, 240);
+    let sessions = args.by_tier(30, 360);
     let blocks = args.by_tier(10u32, 14);
     let c = ctx.clone();
     for_each_session(args, report, shards, sessions, move |case, rng| {
@@ -540,16 +554,17 @@ pub fn run(args: &Args, report: &Report) {
         report.require("c03.gas_limit_binding.respecting", args.by_tier(200, 2000));
         report.require("c03.size_limit_binding.ignoring", args.by_tier(290, 2900));
         report.require("c03.size_limit_binding.respecting", args.by_tier(500, 5000));
-        report.require("c03.forced_txs_used_40pct_of_block_gas", args.by_tier(150, 1_500));
+        report.require("c03.forced_txs_used_40pct_of_block_gas", args.by_tier(120, 1_200));
         report.require("c03.gas_burner_fits_full_limit_but_not_remaining.respecting", args.by_tier(40, 400));
-        report.require("c03.stutter_blocks_with_second_batch_and_60pct_gas", args.by_tier(15, 150));
+        report.require("c03.first_offered_tx_would_overflow_a_stale_gas_budget.respecting", args.by_tier(10, 100));
+        report.require("c03.stutter_blocks_with_second_batch_and_60pct_gas", args.by_tier(70, 700));
         report.require("c03.count_limit_binding.ignoring", args.by_tier(3, 6));
         report.require("c03.mint_nonzero", args.by_tier(630, 6300));
         report.require("c03.mint_zero", args.by_tier(410, 4100));
-        report.require("c03.mutant_rejected.amount_plus.consistent_header", args.by_tier(1000, 10000));
-        report.require("c03.mutant_rejected.index_plus.consistent_header", args.by_tier(1000, 10000));
-        report.require("c03.mutant_rejected.price_plus.consistent_header", args.by_tier(370, 3700));
-        report.require("c03.mutant_rejected.missing.consistent_header", args.by_tier(1000, 10000));
+        report.require("c03.mutant_rejected.amount_plus.consistent_header", args.by_tier(500, 5_000));
+        report.require("c03.mutant_rejected.index_plus.consistent_header", args.by_tier(500, 5_000));
+        report.require("c03.mutant_rejected.price_plus.consistent_header", args.by_tier(150, 1_500));
+        report.require("c03.mutant_rejected.missing.consistent_header", args.by_tier(500, 5_000));
         report.require("c03.fee_vs_balance_checked", args.by_tier(2600, 26000));
     }
     report.finish(
